@@ -286,7 +286,7 @@ _sf("C07", "pool", ["mixed"],
     "units that leave a process that did not run are a preemption and need a strictly higher-priority preempt call in that event and a "
     "PREEMPTED delivery in that instant.")
 _sf("C08", "wakeup", ["mixed", "queues", "pool"],
-    ["c08_nonempty_lists_examined", "instant_boundaries_checked", "exhaustions_checked", "ret_resource_acquire_by_timer", "ret_pool_acquire_by_timer",
+    ["c08_nonempty_lists_examined", "directed_head_leaves_cases", "c08_heads_with_custom_demand", "misc_guard_cancel_served_next", "instant_boundaries_checked", "exhaustions_checked", "ret_resource_acquire_by_timer", "ret_pool_acquire_by_timer",
      "ret_buffer_get_by_timer", "ret_objectqueue_get_by_timer", "ret_priorityqueue_put_by_timer", "ret_resource_acquire_by_interrupt", "c12_objects_cancelled"],
     {"c08_nonempty_lists_examined": 5000, "ret_resource_acquire_by_timer": 100, "ret_pool_acquire_by_timer": 100, "ret_buffer_get_by_timer": 50},
     "C08 oracle: at every clock advance and at exhaustion no resource/pool/buffer/queue waiting list may have a head whose demand (evaluated "
@@ -305,7 +305,7 @@ _sf("C11", "buffer", ["mixed"],
     "running then; reported amounts must equal the attributed change, level == puts - gets (128-bit), 0 <= level <= capacity.")
 _sf("C12", "queues", ["mixed"],
     ["c12_objects_put", "c12_objects_delivered", "c12_objects_cancelled", "c12_blocked_puts_completed", "c12_blocked_gets_completed",
-     "c12_priority_ties_at_delivery", "c12_position_queries", "c12_reprioritisations"],
+     "c12_priority_ties_at_delivery", "c12_position_queries", "c12_reprioritisations", "queue_trials", "objects_delivered_in_concurrent_trials"],
     {"c12_objects_delivered": 5000, "c12_blocked_puts_completed": 200, "c12_blocked_gets_completed": 200, "c12_priority_ties_at_delivery": 200},
     "C12 oracle: sequential models (FIFO; priority desc then put order) advanced at each completed put/get/cancel/reprioritise; every "
     "delivery must be the model's next object, failed gets deliver nothing, length/space/position agree with the model.")
@@ -327,6 +327,10 @@ _sf("C14", "recording", ["mixed"],
     "C14 oracle: at every trace record and event boundary the last history sample of a recording object must equal its true state and times "
     "must not decrease; the time-weighted mean of a single recording window must equal the harness' own integral of the state.")
 
+_add_job("C12", J("exp-queues-in-concurrent-trials", "expcheck", "rel", 2, 24, 3000, timeout=300, chunk=2, claim="C12/concurrent-trials/"))
+_add_job("C12", J("exp-queues-in-concurrent-trials-tsan", "expcheck", "tsan", 2, 4, 100, timeout=600, chunk=1, claim="C12/concurrent-trials/"))
+_add_job("C08", J("sf-directed-first-in-line-leaves", "simfuzz", "rel", 103, 1120, 2240))
+_add_job("C06", J("sf-directed-first-in-line-leaves", "simfuzz", "rel", 103, 560, 2240))
 _add_job("C14", J("sf-directed-long-histories", "simfuzz", "rel", 102, 24, 600, timeout=120, chunk=2))
 _add_job("C14", J("sf-directed-long-histories-asan", "simfuzz", "asan", 102, 4, 60, timeout=300, chunk=1))
 
@@ -344,6 +348,7 @@ PROPS["C10"] = {
            J("stat-sum-asan", "statcheck", "asan", 0, 200, 5000), J("coro-asan", "corofuzz", "asan", 0, 300, 10000)]
         + [J("sf-directed-event-waiters-asan", "simfuzz", "asan", 100, 600, 2730, timeout=120),
            J("sf-directed-event-waiters-rel", "simfuzz", "rel", 100, 600, 2730),
+           J("sf-directed-first-in-line-leaves-asan", "simfuzz", "asan", 103, 280, 2240, timeout=120),
            J("sf-directed-tag-pools-asan", "simfuzz", "asan", 101, 2, 8, timeout=300),
            J("sf-directed-tag-pools-rel", "simfuzz", "rel", 101, 2, 8, timeout=300)]
         + [J("sf-mixed-memcheck", "simfuzz", "rel", 11, 64, 2000, timeout=600, extra=_VG, chunk=4),
